@@ -131,7 +131,7 @@ func Generate(prop string, r *sim.Rand, tier string) *sim.Plan {
 	}
 	cfg.BigBlocks = r.Chance(0.35)
 	cfg.SplitGroups = prop == "C06"
-	cfg.RuleOps = prop == "C03" && r.Chance(0.5)
+	cfg.RuleOps = (prop == "C03" || prop == "C16") && r.Chance(0.5)
 	switch prop {
 	case "C02", "C04", "C06", "C16", "C01":
 		cfg.SamePairs = r.Chance(0.4)
@@ -326,6 +326,9 @@ func (g *gen) step(prop string) []CStep {
 		wg := []int{6, 8, 6, 5, 1}
 		if prop == "C16" {
 			wg = []int{6, 5, 10, 5, 1}
+		}
+		if g.cfg.RuleOps && r.Chance(0.05) {
+			return []CStep{CStep{Op: "ruleop", A: r.Intn(4), N: r.Intn(2), Act: []string{"update", "update", "update", "register", "logout"}[r.Intn(5)], V: []string{"approve", "reject"}[r.Intn(2)]}}
 		}
 		switch r.Weighted(wg) {
 		case 0:
